@@ -80,6 +80,22 @@ def mem_cases(tier):
                              'C1': c1 or c1s[0], 'C2': c2 or c2s[0], 'C3': c3,
                              'D1': D1, 'D2': D2, 'O1': O1, 'O2': O2}
                     yield s, full, types
+    # alpha words of 10, 12 and 21 letters (a transition name with two digits) with several masks per group, alone and between other variables
+    long_words = {'A10': [(.6, ['abcdefghij', 'basketball']), (.4, ['strasseweg'])], 'A12': [(1.0, ['abcdefghijkl'])],
+                  'A21': [(1.0, ['abcdefghijklmnopqrstu'])]}
+    long_masks = {'C10': [(.5, ['L' * 10]), (.3, ['U' + 'L' * 9, 'L' * 9 + 'U']), (.2, ['U' * 10, 'ULLLLULLLL'])],
+                  'C12': [(.7, ['L' * 12, 'UL' * 6]), (.3, ['L' * 11 + 'U'])],
+                  'C21': [(.5, ['L' * 21]), (.5, ['U' + 'L' * 20, 'L' * 10 + 'U' + 'L' * 10])]}
+    base_types = {'A1': A_VARIANTS[1][0], 'C1': c1s[0], 'D1': D1, 'O1': O1}
+    base_types.update(long_words)
+    base_types.update(long_masks)
+    for s in ('A10', 'A12', 'A21', 'A10D1', 'D1A10O1', 'A1A10', 'A10A1', 'A12A10'):
+        full = []
+        for r in R.parse_structure(s):
+            full.append(r)
+            if r[0] == 'A':
+                full.append('C' + r[1:])
+        yield s, full, dict(base_types)
 
 
 OMEN_MODELS = [
